@@ -267,7 +267,7 @@ class AbstractDimension:
         return float(self) == other
 
     def __hash__(self):
-        return hash((self._value, self._defined_units))
+        return hash(self._value)
 
     def __lt__(self, other):
         return float(self) < other
